@@ -126,9 +126,9 @@ func TestC11(t *testing.T) {
 		// (3) both chains behave alike for the same following blocks
 		n2.Time = h.N.Time
 		h.R.Mirrors = []*sim.Node{n2}
-		h.R.MirrorSkipAppHash = true // two chains with different histories: Merkle roots legitimately differ
+		h.R.MirrorSkipAppHash = true                                                               // two chains with different histories: Merkle roots legitimately differ
 		h.R.MirrorMask = func(l string) string { return maxGasRe.ReplaceAllString(l, "maxgas=*") } // depends on block-time history
-		h.R.O.Absences, h.R.O.Evidence = false, false // the new chain legitimately has a fresh grace period
+		h.R.O.Absences, h.R.O.Evidence = false, false                                              // the new chain legitimately has a fresh grace period
 		h.R.H.AfterCommit = func(height uint64) {
 			ea, eb := h.N.Export(), n2.Export()
 			// after the first payout both chains have recalculated: compare fully from then on
